@@ -65,10 +65,8 @@ Proof.
   - unfold view_options_enter, k_view_options in *. apply some_pair_inj in E. destruct E as [<- _]. frame_tac.
   - unfold context_enter, k_context in *. apply some_pair_inj in E. destruct E as [<- _]. frame_tac.
   - unfold contextual_scope_enter in E. apply some_pair_inj in E. destruct E as [<- _]. frame_tac.
-  - unfold detour_enter in E. destruct (tl_peek k_detour v_empty_dict l) as [x|p|x]; try discriminate.
-    destruct a as [x|vs|x]; try discriminate. apply some_pair_inj in E. destruct E as [<- _]. frame_tac.
-  - unfold detour_enter in E. destruct (tl_peek k_detour v_empty_dict l) as [x|p|x]; try discriminate.
-    destruct a as [x|vs|x]; try discriminate. apply some_pair_inj in E. destruct E as [<- _]. frame_tac.
+  - unfold detour_scope_enter in E. apply some_pair_inj in E. destruct E as [<- _]. frame_tac.
+  - unfold detour_scope_enter in E. apply some_pair_inj in E. destruct E as [<- _]. frame_tac.
   - unfold timeit_enter, k_timing in *. revert E. frame_tac; intros E; apply some_pair_inj in E; destruct E as [<- _]; frame_tac.
   - rewrite dyn_enter_thread in H. destruct (is_none (tl_get g_dynamic_evaluate v_none g)); try discriminate.
     apply some_pair_inj in H. destruct H as [H _]. inversion H; subst. split; [|reflexivity]. intros k N. frame_tac.
@@ -85,7 +83,7 @@ Lemma observe_frame : forall q l g l1 g1,
 Proof.
   intros q l g l1 g1 HL HG. destruct q; unfold observe; cbn [fst snd getter_lkey getter_gkey] in *;
     try (destruct (nth_error flag_getters i) as [[k d]|]; [|reflexivity]);
-    unfold get_permission, thread_local_kwargs, get_context, get_dynamic_evaluate_fn, tl_get, tl_peek;
+    unfold get_permission, thread_local_kwargs, get_context, get_dynamic_evaluate_fn, current_mappings, tl_get, tl_peek;
     repeat match goal with
            | |- context [st_get ?k l1] => rewrite (HL k eq_refl)
            | |- context [st_get ?k g1] => rewrite (HG k eq_refl)
